@@ -132,8 +132,9 @@ def run_batch(b):
     if b["kind"] == "exhaustive":
         L = b["L"]
         for first in b["first"]:
-            for rest in itertools.product(OPS, repeat=L - 1):
-                seq = (first,) + rest
+            first = tuple(first) if isinstance(first, (list, tuple)) else (first,)
+            for rest in itertools.product(OPS, repeat=L - len(first)):
+                seq = first + rest
                 h = History(acc, clock)
                 for op in seq:
                     h.step(op)
@@ -158,7 +159,10 @@ def main(tier, seed):
     t0 = time.time()
     q = tier == "quick"
     L = 5 if q else 6
-    batches = [{"kind": "exhaustive", "L": L, "first": [op], "seed": seed} for op in OPS]
+    if q:
+        batches = [{"kind": "exhaustive", "L": L, "first": [op], "seed": seed} for op in OPS]
+    else:
+        batches = [{"kind": "exhaustive", "L": L, "first": [[a, b]], "seed": seed} for a in OPS for b in OPS]
     for i in range(8 if q else 24):
         batches.append({"kind": "random", "n": 150 if q else 800, "maxlen": 400 if q else 2000, "seed": seed * 991 + i})
     acc = harness.run_workers("checks.c16_session_ids", "run_batch", batches, 1500)
